@@ -521,6 +521,20 @@ class SK(object):
                 return BUILTINS[e.attr]
             if b.name == 'ext:math':
                 return Py(lambda sk, node, *a: math_fn(e.attr, *a), 'math.' + e.attr)
+            if b.name == 'ext:json' and e.attr in ('dumps', 'loads'):
+                # JSON as a function on plain data: tuples become lists, keys strings; abstract numbers pass through as themselves
+                def _plain(x):
+                    if isinstance(x, dict):
+                        return {str(k): _plain(v) for k, v in x.items()}
+                    if isinstance(x, (list, tuple)):
+                        return [_plain(v) for v in x]
+                    if isinstance(x, (Bag, set)) or callable(x):
+                        raise Violation('SK2', 'json cannot serialise %s' % type(x).__name__, e)
+                    return x
+                if e.attr == 'dumps':
+                    return Py(lambda sk, node, data, **k: ('json-document', _plain(data)), 'json.dumps')
+                return Py(lambda sk, node, doc, **k: _plain(doc[1]) if isinstance(doc, tuple) and len(doc) == 2 and doc[0] == 'json-document'
+                          else (_ for _ in ()).throw(Unsupported('json.loads of a text that json.dumps did not produce')), 'json.loads')
             if b.name == 'ext:os' and e.attr == 'path':
                 return ModRef('ext:os.path')
             if b.name == 'ext:os.path' and e.attr in ('splitext', 'basename', 'dirname', 'join'):
